@@ -80,7 +80,10 @@ mod imp {
         let omax = a.usize("ops-max", 150).max(omin);
         let only = a.get("only").map(|v| v.parse::<usize>().unwrap());
         let digest = a.flag("digest");
-        let flags = format!("{}{}", if d.ooc { "o" } else { "" }, if d.profile == Profile::MutCentred { "m" } else { "" });
+        // short histories: a start state followed by 3..6 ops -- dense coverage of specific multi-step
+        // sequences on one lineage, between the depth-2 enumeration and the long walks
+        let short = a.flag("short");
+        let flags = format!("{}{}{}", if d.ooc { "o" } else { "" }, if d.profile == Profile::MutCentred { "m" } else { "" }, if short { "s" } else { "" });
         for c in 0..count {
             let g = shard + c * nshards;
             if let Some(o) = only {
@@ -94,15 +97,15 @@ mod imp {
             #[cfg(feature = "ledger")]
             vharness::ledger::set_mix_seed(mix2(seed ^ 0x55, g as u64));
             d.begin(case);
-            let nops = omin + ch.choose(omax - omin + 1);
-            if ch.chance(1, 2) {
+            let nops = if short { 3 + ch.choose(4) } else { omin + ch.choose(omax - omin + 1) };
+            if short || ch.chance(1, 2) {
                 let st = ch.choose(ops::N_STARTS);
                 ops::start_state(d, st);
                 d.check_all();
             }
             let mut n = 0;
             while n < nops && !d.failed {
-                ops::step(d, &mut ch, true);
+                ops::step(d, &mut ch, !short);
                 n += 1;
             }
             if !d.failed && d.obs.samples.len() < d.obs.max_samples && c % 7 == 0 {
